@@ -250,6 +250,12 @@ def random_instance(rng, kind=None, max_reads=8, max_cols=6, small=False):
         n_ind, triples = 4, [[0, 1, 2]]
     elif kind == "quartet":
         n_ind, triples = 4, [[0, 1, 2], [0, 1, 3]]
+        if rng.random() < 0.5:
+            # the trios registered in another order than the children are numbered, and/or the members numbered in another order
+            perm = rng.sample(range(4), 4) if rng.random() < 0.6 else [0, 1, 2, 3]
+            triples = [[perm[f], perm[m], perm[c]] for f, m, c in triples]
+            if rng.random() < 0.6:
+                triples.reverse()
     else:  # three generations
         n_ind, triples = 5, [[0, 1, 2], [2, 3, 4]]
     n = rng.randint(1, max_cols)
